@@ -11,10 +11,21 @@ def setup(sh):
     monitors.install_pipeline()
 
 
-def gen_case(rng, tier):
+def gen_case(rng, tier, long=False):
     fs, lo, hi = gen.gen_config(rng)
     r = rng.random()
     fam = None
+    if long:
+        # a long recording (several 10^5 samples) of a rhythm that is fast for its sampling rate: many half-waves, and whatever is
+        # done block-wise or with narrow index types inside the implementation gets its seams / limits exercised
+        fs = float(rng.choice([100., 128., 200., 250.]))
+        lo = float(round(fs * rng.choice([0.08, 0.1, 0.12])))
+        hi = lo + float(round(fs * 0.06))
+        n = int(rng.integers(70000, 210000))
+        sig, kind = gen.gen_signal(rng, fs, lo, hi, n / fs, str(rng.choice(['bursty', 'noise', 'sum', 'asine', 'quant'])))
+        fk = None if rng.random() < 0.5 else {'n_cycles': int(rng.choice([3, 4]))}
+        return dict(sig=sig, fs=fs, f_range=(lo, hi), boundary=int(rng.choice([0, 25])), first_extrema=[None, 'peak', 'trough'][int(rng.integers(0, 3))],
+                    filter_kwargs=fk, pad=bool(rng.random() < 0.65), family=kind + '+long', arg_types=None, history=None, sig_view=None)
     if r < 0.25:
         fam = str(rng.choice(['quant', 'clip', 'plateau', 'zeroed']))     # ties inside one window
     elif r < 0.35:
@@ -120,6 +131,11 @@ def run(sh):
     K = 50 if sh.tier == 'quick' else 9000
     for it in range(K):
         one(sh, gen_case(rng, sh.tier))
+    for it in range(2 if sh.tier == 'quick' else 12):
+        c = gen_case(rng, sh.tier, long=True)
+        one(sh, c)
+        sh.note('long_recordings')
+        sh.note('long_recordings:samples', len(c['sig']))
     for k, v in attach.COUNTS.items():
         if k.startswith('C02:'):
             sh.classes[k[4:]] = v
